@@ -24,15 +24,26 @@ TRUSTED = ['RNG state injection as in C07; np.random.choice of the start state i
 PARTIAL = 'distribution clause in prose'
 
 
-def _mk(kind, trajs, lag, S, F, steps, return_list, useed, src='rand', bad=None):
+def _mk(kind, trajs, lag, S, F, steps, return_list, useed, src='rand', bad=None, stretch=1):
+    # stretch = L: the real code gets every frame repeated L times (narrowest dtype) and lag time lag*L; the pairs (i, i+lag*L) of the
+    # stretched trajectory are L copies of the pairs (k, k+lag) of the base trajectory, so T is the same matrix (checked: the captured
+    # cumulative matrix is judged against the exact model of the BASE trajectory) while all times are multiplied by lag*L — this reaches
+    # time values beyond 2^31 frames with chains of a few hundred steps
     return {'op': kind, 'trajs': trajs, 'lag': lag, 'S': S, 'F': F, 'steps': steps, 'return_list': return_list, 'useed': useed,
-            'src': src, 'bad': bad}
+            'src': src, 'bad': bad, 'stretch': stretch}
 
 
 def cases(tier, rng, boost=1):
     yield _mk('wt', [[0, 1, 2, 1, 0, 0, 1, 2, 2, 1, 0, 1, 1, 2, 0, 2, 1, 0]], 1, [0], [2], 200, True, 11, src='corpus')   # D4: unsorted list
     # rare transition T_01 = T_02 < 1e-5: the tail of the cumulative row must stay reachable
     yield _mk('wt', [[0] * 120000 + [1, 0, 2, 1, 2, 0, 0, 1, 1, 2, 2, 0]], 1, [0], [2], 40, True, 12, src='corpus')
+    # very long lag time (stretched trajectory): durations of ~300 steps x lag 7.2e6 exceed 2^31 frames (32-bit time arithmetic wraps there)
+    # (base chain 0 <-> 1 with a rare exit 1 -> 2; draws: always the most probable move, then the least probable one = one event of ~300 steps)
+    BIG = [[0, 1, 0, 1, 0, 1, 2, 0, 1, 0, 1, 0]]
+    yield dict(_mk('wt', BIG, 1, [0], [2], 310, True, 13, src='corpus-biglag', stretch=7200000), draws='long')
+    if tier != 'quick':
+        yield dict(_mk('tt', BIG, 1, [1], [2], 310, True, 14, src='corpus-biglag', stretch=7200000), draws='long')
+        yield dict(_mk('wt', BIG, 1, [0], [2], 310, False, 15, src='corpus-biglag', stretch=7200000), draws='long')
     n = {'quick': 250, 'thorough': 4000, 'search': 800}[tier] * boost
     for _ in range(n):
         ns = rng.randint(2, 6)
@@ -63,7 +74,11 @@ def real(case):
     import msmhelper as mh
     from msmhelper.msm import timescales as ts
     rng = core.Rng(case['useed'])
-    trajs = [np.array(t, dtype=np.int64) for t in case['trajs']]
+    L = case.get('stretch', 1)
+    if L == 1:
+        trajs = [np.array(t, dtype=np.int64) for t in case['trajs']]
+    else:
+        trajs = [np.repeat(np.array(t, dtype=np.int8), L) for t in case['trajs']]
     cap = {}
     np.random.seed(case['useed'] & 0x7fffffff)
     if case['op'] == 'paths':
@@ -78,7 +93,7 @@ def real(case):
             return orig(cummat=cummat, start=start, steps=steps)
         ts._propagate_MCMC = wrapper
         try:
-            res = core.call(lambda: mh.msm.estimate_paths(trajs=trajs, lagtime=case['lag'], start=case['S'], final=case['F'],
+            res = core.call(lambda: mh.msm.estimate_paths(trajs=trajs, lagtime=case['lag'] * L, start=case['S'], final=case['F'],
                                                           steps=case['steps']))
         finally:
             ts._propagate_MCMC = orig
@@ -97,14 +112,18 @@ def real(case):
         cap['cum'], cap['perm'], cap['start'], cap['steps'] = cummat[0].copy(), cummat[1].copy(), int(start), int(steps)
         cap['Sidx'], cap['Fidx'] = [int(x) for x in states_from], [int(x) for x in states_to]
         cap['us'] = []
-        ks, _ = _choose_draws(cap['cum'], cap['perm'], cap['start'], steps, rng)
+        if case.get('draws') == 'long':
+            # u = 0 always takes the most probable transition; the last two draws take the least probable one: one long event
+            ks = [0] * (steps - 2) + [G - 1] * 2
+        else:
+            ks, _ = _choose_draws(cap['cum'], cap['perm'], cap['start'], steps, rng)
         cap['us'] = ks
         rng_inject.inject([Fraction(k, G) for k in ks])
         return orig(cummat=cummat, start=start, states_from=states_from, states_to=states_to, steps=steps)
     setattr(ts, name, wrapper)
     fn = mh.msm.estimate_waiting_times if case['op'] == 'wt' else ts.estimate_transition_times
     try:
-        res = core.call(lambda: fn(trajs=trajs, lagtime=case['lag'], start=case['S'], final=case['F'], steps=case['steps'],
+        res = core.call(lambda: fn(trajs=trajs, lagtime=case['lag'] * L, start=case['S'], final=case['F'], steps=case['steps'],
                                    return_list=case['return_list']))
     finally:
         setattr(ts, name, orig)
@@ -122,9 +141,9 @@ def real(case):
 
 
 def _cap(cap, trajs):
-    import msmhelper as mh
     d = {'cum': [[core.rat_str(v) for v in row] for row in cap['cum']], 'perm': [[int(v) for v in row] for row in cap['perm']],
-         'start': cap['start'], 'steps': cap['steps'], 'us': cap['us'], 'states': [int(s) for s in mh.StateTraj(trajs).states]}
+         'start': cap['start'], 'steps': cap['steps'], 'us': cap['us'],
+         'states': sorted({int(s) for t in trajs for s in np.unique(t)})}
     if 'Sidx' in cap:
         d['Sidx'], d['Fidx'] = cap['Sidx'], cap['Fidx']
     return d
@@ -163,6 +182,10 @@ def agree(case, obs, reply):
             return m.get('err') == obs.get('err')
         return _group(m['ok']) == obs['ok']['dict']
     mo = m['ok']
+    L = case.get('stretch', 1)
+    if L != 1:
+        mo = dict(mo, list=[v * L for v in mo['list']], edges=[e * L for e in mo['edges']],
+                  density=[str(Fraction(d) / L) for d in mo['density']])
     if 'err' in obs:
         # histogram form without a single event: max() of an empty sequence → ValueError
         return obs['err'] == 'ValueError' and not case['return_list'] and not mo['hist']
@@ -181,10 +204,11 @@ def holds(case, obs, reply):
         dens = [Fraction(v) for v in obs['ok']['density']]
         edges = obs['ok']['edges']
         integral = sum(d * (b - a) for d, a, b in zip(dens, edges, edges[1:]))
-        ok = abs(integral - 1) <= Fraction(1, 10 ** 12) and all(b - a == case['lag'] for a, b in zip(edges, edges[1:])) and edges[0] == 0
+        lagt = case['lag'] * case.get('stretch', 1)
+        ok = abs(integral - 1) <= Fraction(1, 10 ** 12) and all(b - a == lagt for a, b in zip(edges, edges[1:])) and edges[0] == 0
     if ok and 'ok' in obs and case['op'] != 'paths' and case['return_list']:
         lst = obs['ok']['list']
-        ok = all(a <= b for a, b in zip(lst, lst[1:])) and all(v % case['lag'] == 0 for v in lst)
+        ok = all(a <= b for a, b in zip(lst, lst[1:])) and all(v % (case['lag'] * case.get('stretch', 1)) == 0 for v in lst)
     return ok
 
 
@@ -196,7 +220,7 @@ def nontrivial(case, obs, reply):
 
 
 def key(case):
-    return [case['op'], case['trajs'], case['lag'], case['S'], case['F'], case['steps'], case['return_list'], case['useed']]
+    return [case['op'], case['trajs'], case['lag'], case['S'], case['F'], case['steps'], case['return_list'], case['useed'], case.get('stretch', 1)]
 
 
 def classify(case, obs, reply):
